@@ -24,7 +24,7 @@ RULE = ('every element (both isotope modes) and every tabulated isotope once (ex
 SHARDS = {'quick': 16, 'thorough': 16}
 MIN_NONTRIVIAL = {'quick': 1000, 'thorough': 30000}
 TIME_CAP = {'quick': 300, 'thorough': 3600}
-REQUIRED_CLASSES = ['substance*tiny-number', 'substance*almost-whole-number', 'sum-then-add-on-result-or-operand', 'single-element', 'single-isotope', 'natural', 'most-abundant', 'group', 'nesting>=3',
+REQUIRED_CLASSES = ['element-arithmetic', 'substance*tiny-number', 'substance*almost-whole-number', 'sum-then-add-on-result-or-operand', 'single-element', 'single-isotope', 'natural', 'most-abundant', 'group', 'nesting>=3',
                     'multiplied-group-followed-by-group', 'multiplied-group-followed-by-explicit-plus',
                     'two-capitals-in-a-row', 'count>=10', 'isotope-suffix', 'charge-suffix', 'isotope+charge-suffix',
                     'nucleon', 'deuterium-tritium', 'explicit-multiplication', 'implicit-multiplication',
@@ -435,6 +435,26 @@ def _run(case, ctx):
                 comps, rows, srow = res
                 compare(T, exp, ids, natural, comps, rows, srow, devs, mon, 'addel:')
                 sample.update(element=et, n=case['n'], expected_counts=exp, observed_counts=comps)
+            if res and not devs:
+                # the element itself under * and + (same species), then the product as the operand of the sum
+                classes.add('element-arithmetic')
+                mon['element_arithmetic_checks'] = mon.get('element_arithmetic_checks', 0) + 1
+                try:
+                    kq = [3, 0.5, 2.5, 1e-9, 7][len(text) % 5]
+                    d0 = R.ident_data(T, ids[et], natural)
+                    e1 = M.Element(et, case['n'], natural=natural)
+                    e2 = e1 * kq
+                    e3 = e1 + M.Element(et, 4, natural=natural)
+                    for lab, obj, want in (('element*number', e2, case['n'] * kq), ('element+element', e3, case['n'] + 4), ('element-operand-afterwards', e1, case['n'])):
+                        got_n, got_m, got_1 = plain(obj.proportion), plain(obj.composite_mass.value('Da')), plain(obj.component_mass.value('Da'))
+                        if not close(got_n, want, RTOL) or not close(got_m, want * d0['mass'], RTOL) or not close(got_1, d0['mass'], RTOL) or obj.natural != natural:
+                            devs.append(dev(lab + '-differs', dict(element=et, n=case['n'], k=kq, natural=natural, observed=dict(count=got_n, total_mass=got_m, unit_mass=got_1, natural=obj.natural),
+                                                                   expected=dict(count=want, total_mass=want * d0['mass'], unit_mass=d0['mass']))))
+                    exp3 = dict(counts)
+                    exp3[et] = exp3.get(et, 0) + case['n'] * kq
+                    compare(T, exp3, ids, natural, *observe(a + e2), devs, mon, 'substance+(element*number):')
+                except Exception as e:
+                    devs.append(dev('element-arithmetic-raises:' + type(e).__name__, dict(exc=repr(e)[:300], element=et)))
         trivial = False
     elif t == 'mul':
         classes.add('substance*number')
